@@ -66,4 +66,17 @@ example : viewFromDict (viewAsDict ⟨[("10.0.0.0", 8)], ["10.0.0.1"], [], [("10
   some ⟨[("10.0.0.0", 8)], ["10.0.0.1"], [], [("10.0.0.1", [⟨"ssh", "passive", "1", false⟩])],
     [("10.0.0.1", [⟨"u", "d", 7, "txt"⟩])], [("10.0.0.1", ["10.0.0.2"])]⟩ := C15_dict _
 
+/-- **C15, the response path:** the observation inside a response (view, reward, end flag, end reason)
+decodes to exactly the observation that was encoded. -/
+theorem C15_observation (o : CObs) : obsFromDict (obsAsDict o) = some o := by
+  obtain ⟨v, r, e, rs⟩ := o
+  cases rs with
+  | none => simp [obsFromDict, obsAsDict, oget, C15_dict]
+  | some s => simp [obsFromDict, obsAsDict, oget, C15_dict]
+
+/-- two observations with the same encoding are the same observation -/
+theorem C15_observation_injective (o p : CObs) (h : obsAsDict o = obsAsDict p) : o = p := by
+  have h1 := C15_observation o; have h2 := C15_observation p
+  rw [h] at h1; rw [h1] at h2; exact Option.some.inj h2
+
 end NSG.Codec
